@@ -59,10 +59,10 @@ def run(ctx):
         return bytes(b).decode("latin-1")
     bigs = [big(28000, [14000]), big(9000, [100]), big(9000, [8990]), big(20000, [5000, 15000]), big(12289, []), big(4097, [4091]), big(8192, [4093, 8186]),
             big(30000, [10, 29990]), big(16384, [6000])]
-    for content in (bigs if not quick else rng.sample(bigs, 5) + [bigs[0]]):
+    for content in (bigs if not quick else bigs[:3] + rng.sample(bigs[3:], 3)):
         for mode in ("NEW", "OVERWRITE", "NOTHING"):
             for src in ("replace all 'needle' with 'N'", "replace all 'needle' with '<<' value value '>>'"):
-                if quick and rng.random() < 0.4:
+                if quick and mode != "OVERWRITE" and rng.random() < 0.5:
                     continue
                 files = [["big.txt", content]]
                 cases.append({"op": "files", "src_hex": vh.hexs(src), "files": [["big.txt", vh.hexs(content)], ["bystander.dat", vh.hexs("do not touch")]], "search": ["big.txt"], "mode": mode})
@@ -87,8 +87,9 @@ def run(ctx):
             # a generated program that backtracks exponentially on this content: time is not this property's business (C10 decides termination);
             # it is a violation here only if the model finishes the same run within its step bound
             mk = [k for k in mres if k.startswith("s%d_" % i)]
-            if mk and all(mres[k].startswith("(ok") for k in mk):
-                ctx.violation("RunFiles does not return although the model does", {"source": src, "mode": mode, "files": [[f, c[:200]] for f, c in files]})
+            literal_only = src.startswith("replace all 'needle' with")      # the large-file programs: a literal pattern cannot backtrack
+            if (mk and all(mres[k].startswith("(ok") for k in mk)) or literal_only:
+                ctx.violation("RunFiles does not return although the model does (or the pattern is a literal)", {"source": src, "mode": mode, "files": [[f, c[:200]] for f, c in files]})
             else:
                 ctx.coverage["expensive_programs_skipped"] = ctx.coverage.get("expensive_programs_skipped", 0) + 1
             continue
